@@ -12,7 +12,7 @@ import traceback
 
 from hypothesis import strategies as st
 
-from pbt.core import Violation, hyp_run, REPO
+from pbt.core import Violation, fuzz_run, hyp_run, REPO
 from pbt import world as W
 from pbt.node import fresh_dir, make_coin
 from pbt.server import Server, ServerDied, ServerStuck, NoConvergence
@@ -502,9 +502,15 @@ def run_sweep(ctx):
     ctx.extra['sweep_boundary_values_max'] = len(BOUNDARY)
 
 
+# coverage-guided: the same request grammar and oracle, the choices steered by libFuzzer's coverage
+# of electrumx (pbt/fuzz.py) instead of Hypothesis's PRNG
+FUZZ_TARGETS = {'c16.fuzz_calls': {'kind': 'hyp', 'strategy': CASE, 'make': body, 'max_len': 8192}}
+
+
 def run(ctx):
     run_sweep(ctx)
-    hyp_run(ctx, 'c16.calls', CASE, body(ctx), ctx.pick(400, 30000))
+    hyp_run(ctx, 'c16.calls', CASE, body(ctx), ctx.pick(400, 30000), frac=0.75)
+    fuzz_run(ctx, 'c16.fuzz_calls', ctx.pick(60, 200000))
 
 
 def replay(ctx, check, case):
